@@ -461,6 +461,15 @@ class SFixed(Template[_FixedTemplateArg], AssignableType):
                             else Signed[2](0)
                         )
 
+                    if (
+                        overflow_style is FixedOverflowStyle.SATURATE
+                        and selfleft == left
+                    ):
+                        # saturate: the maximal value is not rounded up (it would wrap)
+                        kept = self._val.msb(rest=cutoff).signed
+                        is_max = kept == Signed[Result._width].max()
+                        do_round = Signed[2](0) if is_max else do_round
+
                     return Result(
                         raw=Value[Signed[Result._width]](
                             self._val.msb(rest=cutoff).signed.resize(Result._width)
@@ -797,6 +806,15 @@ class UFixed(Template[_FixedTemplateArg], AssignableType):
                             and (self._val[cutoff] or self._val[cutoff - 2 : 0])
                             else Unsigned[1](0)
                         )
+
+                    if (
+                        overflow_style is FixedOverflowStyle.SATURATE
+                        and selfleft == left
+                    ):
+                        # saturate: the maximal value is not rounded up (it would wrap)
+                        kept = self._val.msb(rest=cutoff).unsigned
+                        is_max = kept == Unsigned[Result._width].max()
+                        do_round = Unsigned[1](0) if is_max else do_round
 
                     return Result(
                         raw=Value[Unsigned[Result._width]](
